@@ -731,7 +731,7 @@ def write_evidence(prop, tier, seed, results, hs, cfg, wall, nviol, extra):
             axiom_sets=axioms_used,
             solver_time_s=round(sum(r['solver_s'] for r in results), 1),
             symex_time_s=round(sum(r['symex_s'] for r in results), 1),
-            symex_steps=sum(r.get('steps', 0) for r in results),
+            vc_bytes_total=sum(r.get('vc_bytes') or 0 for r in results),
             traces_validated_against_impl=sum(1 for r in results if r.get('translator_check') == 'agree'),
             native_search_runs=sum(r.get('native_search', 0) for r in results),
             fallback_obligations=[r['harness'] for r in results if r.get('fallback_run')],
